@@ -7,6 +7,8 @@ byte for byte, and the reference encoding (what another implementation would
 send, including variants holding types txdbus's inference never produces)
 must decode to the encoded value.  Plus the alignment rule in isolation.
 """
+import itertools
+
 from mcx import core, space, codec_space as CS, refcodec as R
 from mcx.refcodec import Var
 
@@ -268,6 +270,23 @@ def _task_messages(_):
                                                         type(e).__name__),
                               'a %s-endian call with body %r raised %r'
                               % (order, sig, e), rep, size=len(sig))
+    # the encoding of a call is a function of that call alone: sequences of
+    # calls (with and without descriptor arguments) issued one after the
+    # other through one connection, each read by the reference parser
+    from mcx.checks import c20
+    seqs = [(i,) for i in range(c20.NSEND)] + \
+        list(itertools.product(range(c20.NSEND), repeat=2)) + \
+        [(8, 1, 1, 5, 8), (1, 8, 1), (5, 3, 8, 1)]
+    for idxs in seqs:
+        res.count('states')
+        res.count('evaluations')
+        res.count('transitions', len(idxs))
+        res.count('nontrivial')
+        for tag, what in c20.sender_case(idxs):
+            res.violation('%s/call-sequence/%s' % (PROP, tag),
+                          'calls with bodies %r issued one after the other: '
+                          '%s' % ([c20.BODIES[i][0] for i in idxs], what),
+                          {'dir': 'message'}, size=len(idxs))
     return res
 
 
